@@ -105,3 +105,14 @@ Theorem C19_same_result_after_roundtrip : forall (A : Type) (ev : lval -> A) (t 
   tree_ok t = true -> res_map ev (load_tree (dump_tree t)) = Ok (ev (embed t)).
 Proof. exact @tree_roundtrip_same_result. Qed.
 Print Assumptions C19_same_result_after_roundtrip.
+
+(* for trees the parser produced the hypothesis is met: every parse (embed e) of a written condition expression has non-empty keys, so
+   serialising it, loading it back and evaluating gives the result of evaluating the original -- no side condition left *)
+From Ahb Require Import Gen.Gen_grammar Model.Lex Proofs.C01_lexprint Proofs.C01_print Proofs.C08_fc Proofs.C07_fc Proofs.C07_parse Proofs.C19_parsed.
+Theorem C19_eval_after_roundtrip_of_parsed_trees : forall (ce : cer) l its (e : kexpr),
+  Forall (fun p : text * ptok => all_ws (fst p) = true /\ ptok_ok (snd p) = true) l ->
+  group (map (fun p => tok_of (snd p)) l) = Some its -> Rc its (embed e) ->
+  exists x, load_tree (dump_tree (to_ltree e)) = Ok x /\ of_lval x = Some e
+            /\ option_map (rc_evaluation ce) (of_lval x) = Some (rc_evaluation ce e).
+Proof. exact eval_after_roundtrip_parsed. Qed.
+Print Assumptions C19_eval_after_roundtrip_of_parsed_trees.
